@@ -40,6 +40,7 @@ const rule = "cases = (side server|client, maxPackageLength, stream, partition o
 	"bodies and further packets after it, truncated packets, random bytes; partitions: whole, per packet, single bytes, inside " +
 	"every header at offsets 1..3, every header byte isolated, one byte before/after every packet end, coalesced pairs/triples, " +
 	"random (with empty reads); max-length settings <4, 4, 5, small, around the 4096-byte read buffer, 65536, default, >2^32; " +
+	"connection histories of ONE TarsClient / ONE TarsServer (2-3 connections; the peer ends each but the last by FIN or RST inside a packet: after 1..4 header bytes, mid-body, one byte before the end, or after a protocol error; the client reconnects on its next Send) with the per-connection oracle that nothing is carried over; " +
 	"plus direct TarsRequest calls around every decision boundary; non-trivial = distinct (side, maxLen, stream, partition) " +
 	"with at least one delivered packet or a protocol error"
 
@@ -223,6 +224,14 @@ func classifyPanic(stderr string, c *tcase) (class, locus string) {
 	return
 }
 
+// opOf: what is written into a replay file for a connection case
+func opOf(c *tcase) *tcase {
+	if c.parent != nil {
+		return c.parent
+	}
+	return c
+}
+
 func locusOf(c *tcase) string {
 	if c.Kind == "req" {
 		return "TarsRequest"
@@ -320,6 +329,28 @@ func childMain(o *common.Opts, dir string) {
 		}
 	}
 
+	connChunks := map[int][][][]byte{}
+	for i, c := range cases {
+		if c.Kind != "reconn" {
+			continue
+		}
+		if len(c.Ends) != len(c.Conns) || len(c.Conns) == 0 {
+			res.Fatal(o.Out, fmt.Errorf("case %d: reconn needs one end per connection", i))
+		}
+		for _, conn := range c.Conns {
+			var cs [][]byte
+			for _, s := range conn {
+				bs, err := parseBytes(s)
+				if err != nil {
+					res.Fatal(o.Out, fmt.Errorf("case %d: %v", i, err))
+				}
+				cs = append(cs, bs)
+			}
+			connChunks[i] = append(connChunks[i], cs)
+		}
+	}
+	sessOuts := make([][]outcome, len(cases))
+
 	// groups by maximum length (a package-level variable of package protocol: one value at a time)
 	var order []int64
 	groups := map[int64][]int{}
@@ -334,7 +365,7 @@ func childMain(o *common.Opts, dir string) {
 	for _, idxs := range groups {
 		cnt := map[string]int{}
 		for _, i := range idxs {
-			if cases[i].Kind == "conn" {
+			if cases[i].Kind == "conn" || cases[i].Kind == "reconn" {
 				k := cases[i].Side + "/" + cases[i].Mode
 				cnt[k]++
 			}
@@ -419,6 +450,39 @@ func childMain(o *common.Opts, dir string) {
 				}(i, c)
 				continue
 			}
+			if c.Kind == "reconn" {
+				if atomic.LoadInt32(&stalls) >= 6 {
+					continue
+				}
+				wg.Add(1)
+				go func(i int, c *tcase) {
+					defer wg.Done()
+					if c.Side == "server" {
+						pool, ok := srvPool[c.Mode]
+						if !ok {
+							sessOuts[i] = []outcome{{Err: "unknown server mode " + c.Mode}}
+							ran[i] = true
+							return
+						}
+						s := <-pool
+						jr.log("S", i)
+						sessOuts[i] = runServerSession(s, connChunks[i], c.Ends)
+						jr.log("D", i)
+						pool <- s
+					} else {
+						jr.log("S", i)
+						sessOuts[i] = runClientSession(nil, c.Mode, connChunks[i], c.Ends)
+						jr.log("D", i)
+					}
+					ran[i] = true
+					for _, so := range sessOuts[i] {
+						if so.Stalled != "" || so.Runaway || so.CloseTimeout {
+							atomic.AddInt32(&stalls, 1)
+						}
+					}
+				}(i, c)
+				continue
+			}
 			if atomic.LoadInt32(&stalls) >= 6 {
 				continue // the code under test hangs: enough evidence, do not wait for every case
 			}
@@ -496,6 +560,8 @@ func childMain(o *common.Opts, dir string) {
 		}
 		if cases[i].Kind == "req" {
 			checkReq(&cases[i], chunks[i][0], reqAns[i], ans[k], res, verbose)
+		} else if cases[i].Kind == "reconn" {
+			checkSession(&cases[i], connChunks[i], sessOuts[i], ans[k], res, verbose)
 		} else {
 			checkConn(&cases[i], chunks[i], &outs[i], ans[k], extraAns, res, verbose)
 		}
@@ -609,6 +675,47 @@ func checkReq(c *tcase, buf []byte, impl, model string, res *common.Result, verb
 	}
 }
 
+// ---- connection histories ----
+
+// checkSession: every connection of the history is checked like a single connection - against the
+// model's answer for that connection (the model starts every connection with `reconnect`) and
+// against the oracle: exactly the complete packets sent on THAT connection, nothing carried over.
+func checkSession(c *tcase, conns [][][]byte, outs []outcome, model string, res *common.Result, verbose bool) {
+	var parts []string
+	if model == common.NoModel {
+		for range conns {
+			parts = append(parts, common.NoModel)
+		}
+	} else {
+		parts = strings.Split(model, " | ")
+	}
+	if len(parts) != len(conns) {
+		res.Diverge(common.Case{Stream: "frame", Op: c, Model: trunc(model), Impl: fmt.Sprintf("%d connections", len(conns))})
+		return
+	}
+	if verbose {
+		fmt.Printf("history of one %s: %d connections, ended by the peer with %v\n", c.Side, len(conns), c.Ends)
+	}
+	for k := range conns {
+		if k >= len(outs) || (outs[k].Status == "" && outs[k].Err == "") {
+			break // not run: an earlier connection hung
+		}
+		cc := tcase{Kind: "conn", Side: c.Side, Mode: c.Mode, MaxLen: c.MaxLen, Chunks: c.Conns[k],
+			Gen: "reconnect", Chk: fmt.Sprintf("conn%d-after-%s", k+1, prevEnd(c, k)), parent: c}
+		if k > 0 {
+			cc.suffix = "/reconnect"
+		}
+		checkConn(&cc, conns[k], &outs[k], parts[k], "", res, verbose)
+	}
+}
+
+func prevEnd(c *tcase, k int) string {
+	if k == 0 {
+		return "start"
+	}
+	return c.Ends[k-1]
+}
+
 // ---- isolation ----
 
 func checkIso(c *tcase, err, problem string, res *common.Result, verbose bool) {
@@ -686,7 +793,7 @@ func checkConn(c *tcase, chunks [][]byte, out *outcome, model, modelObserved str
 	for _, ch := range chunks {
 		stream = append(stream, ch...)
 	}
-	locus := locusOf(c)
+	locus := locusOf(c) + c.suffix
 	if out.Err != "" {
 		res.Fatal(gOut, fmt.Errorf("case could not be run: %s", out.Err))
 	}
@@ -752,17 +859,17 @@ func checkConn(c *tcase, chunks [][]byte, out *outcome, model, modelObserved str
 
 	// correspondence
 	if model != common.NoModel && model != impl {
-		res.Diverge(common.Case{Stream: "frame", Op: c, Model: trunc(model), Impl: trunc(impl)})
+		res.Diverge(common.Case{Stream: "frame", Op: opOf(c), Model: trunc(model), Impl: trunc(impl)})
 	}
 	if modelObserved != "" && modelObserved != common.NoModel && dropTrace(modelObserved) != implFinal {
-		res.Diverge(common.Case{Stream: "frame", Op: c, Model: trunc(dropTrace(modelObserved)), Impl: trunc(implFinal),
+		res.Diverge(common.Case{Stream: "frame", Op: opOf(c), Model: trunc(dropTrace(modelObserved)), Impl: trunc(implFinal),
 			Note: fmt.Sprintf("model fed with the reads the loop actually saw: %v", out.Reads)})
 	}
 
 	// oracle on the implementation
 	viol := func(class, what string) {
 		res.Violate(common.Violation{Signature: "C07:" + class + ":" + locus, What: what,
-			Case: common.Case{Stream: "frame", Op: c, Model: trunc(model), Impl: trunc(impl),
+			Case: common.Case{Stream: "frame", Op: opOf(c), Model: trunc(model), Impl: trunc(impl),
 				Note: fmt.Sprintf("sent packets %s; illegal length sent: %v; closed by the side under test: %v; stalled: %q; anomalies: %v",
 					trunc(commaSep(sums(want))), wantClosed, out.ClosedByIt, out.Stalled, out.Anomalies)}})
 	}
